@@ -246,7 +246,8 @@ def schedule_judge(detail):
         if b"random.random()" in after:
             out.append(("schedule|sonar|reported-site-not-rewritten", f"{path}: the hotspot on line 3 is reported but random.random() is still there"))
         with_finding = [c for c in by_path.get(path, []) if c.get("findings")]
-        if len(by_path.get(path, [])) != 1 or len(with_finding) != 1:
+        # entries without a finding (e.g. for an added import) are not judged; the one reported site is carried exactly once
+        if len(with_finding) != 1:
             out.append(("schedule|sonar|change-entries-not-one-per-reported-site", f"{path}: {len(by_path.get(path, []))} change entries, {len(with_finding)} carrying a finding; one reported site"))
     return out
 
